@@ -1,14 +1,17 @@
 #!/bin/bash
-# tools/demo.sh <worktree>: run the sub-agent's demonstration with and without its change (expects: fails with, passes without)
+# tools/demo.sh <worktree>: run the sub-agent's demonstration with and without its change (expects: fails with, passes without).
+# The change is taken off with a reverse patch, not with git stash (the stash is shared between worktrees).
 wt=$1
 run() {
-  if [ -f $wt/_demo/demo.py ]; then (cd $wt && PYTHONPATH=$wt /venv/bin/python _demo/demo.py >/dev/shm/demo.out 2>&1); echo $?
-  elif [ -f $wt/_demo/demo.cpp ]; then (cd $wt && g++ -std=c++11 -O1 -I$wt -o /dev/shm/demo.bin _demo/demo.cpp >/dev/shm/demo.out 2>&1 && /dev/shm/demo.bin >>/dev/shm/demo.out 2>&1); echo $?
+  if [ -f $wt/_demo/demo.py ]; then (cd $wt && PYTHONPATH=$wt /venv/bin/python -W ignore _demo/demo.py >/dev/shm/demo.$$.out 2>&1); echo $?
+  elif [ -f $wt/_demo/demo.cpp ]; then (cd $wt && g++ -std=c++11 -O1 -I$wt -o /dev/shm/demo.$$.bin _demo/demo.cpp >/dev/shm/demo.$$.out 2>&1 && /dev/shm/demo.$$.bin >>/dev/shm/demo.$$.out 2>&1); echo $?
   else echo "no demo"; fi
 }
+git -C $wt diff > /dev/shm/demo.$$.patch
+[ -s /dev/shm/demo.$$.patch ] || { echo "worktree has no change"; exit 1; }
 a=$(run)
-git -C $wt stash -q
+git -C $wt apply -R /dev/shm/demo.$$.patch
 b=$(run)
-git -C $wt stash pop -q
+git -C $wt apply /dev/shm/demo.$$.patch
 echo "demo exit with change: $a ; without: $b"
-rm -f /dev/shm/demo.bin
+rm -f /dev/shm/demo.$$.*
